@@ -150,12 +150,14 @@ def apply_real(ev, db, path, wdir):
     kind = ev.split(":")
     if kind[0] == "U":
         p = dbutil.write_text(wdir, "bundle.gff", "\n".join(BUNDLES[kind[1]]) + "\n")
-        db.update(p, merge_strategy=kind[2], make_backup=True, verbose=False, **(GTF_KW if kind[1].startswith("G") else {}))
+        # every other bundle relies on the documented default (make_backup=True) instead of saying so
+        bk = {} if kind[1] in ("B1", "B3", "B5", "G1", "G3") else dict(make_backup=True)
+        db.update(p, merge_strategy=kind[2], verbose=False, **dict(bk, **(GTF_KW if kind[1].startswith("G") else {})))
     elif kind[0] == "D":
         if kind[1] == "str":
             db.delete(kind[2], make_backup=True)
         elif kind[1] == "feat":
-            db.delete(db[kind[2]], make_backup=True)
+            db.delete(db[kind[2]])                                                 # the documented default: a backup is made
         elif kind[1] == "gen":
             db.delete((x for x in kind[2].split(",")), make_backup=True)            # a one-shot generator of ids
         elif kind[1] == "children":
